@@ -148,6 +148,21 @@ def gen_tables(v):
         out.append('(* footprint, description, slots (type, id, default, has description, description) *)')
         out.append('Definition PERS_%s : list (N * list N * list (N * N * N * bool * list N)) :=\n  [%s].' % (
             c, ';\n   '.join(rows)))
+    # AdvancedDimmerResponder: private constants and string tables, cut from the source text
+    asrc = re.sub(r'//[^\n]*', '', open(v.repo_path('common/rdm/AdvancedDimmerResponder.cpp')).read())
+    out.append('(* AdvancedDimmerResponder.cpp: private constants, setting descriptions, personality *)')
+    for m in re.finditer(r'const\s+(?:uint8_t|uint16_t|unsigned int)\s+AdvancedDimmerResponder::(\w+)\s*=\s*(0x[0-9a-fA-F]+|\d+)\s*;', asrc):
+        out.append('Definition ADV_%s : N := %d.' % (m.group(1), int(m.group(2), 0)))
+    for m in re.finditer(r'const char\*\s*AdvancedDimmerResponder::(\w+)\[\]\s*=\s*\{(.*?)\};', asrc, re.S):
+        strs_ = re.findall(r'"([^"]*)"', m.group(2))
+        out.append('Definition ADV_%s : list (list N) :=\n  [%s].' % (m.group(1), '; '.join(nl([ord(ch) for ch in s_]) for s_ in strs_)))
+    m = re.search(r'AdvancedDimmerResponder::PWM_FREQUENCIES\[\]\s*=\s*\{(.*?)\};', asrc, re.S)
+    fr = re.findall(r'\{\s*(\d+)\s*,\s*"([^"]*)"\s*\}', m.group(1)) if m else []
+    out.append('Definition ADV_PWM_FREQUENCIES : list (N * list N) :=\n  [%s].' % '; '.join(
+        '(%s, %s)' % (f, nl([ord(ch) for ch in d])) for f, d in fr))
+    ps = re.findall(r'personalities\.push_back\(Personality\(\s*(\d+)\s*,\s*"([^"]*)"\s*\)\)', asrc)
+    out.append('Definition ADV_PERSONALITIES : list (N * list N) :=\n  [%s].' % '; '.join(
+        '(%s, %s)' % (f, nl([ord(ch) for ch in d])) for f, d in ps))
     new = '\n'.join(out) + '\n'
     path = os.path.join(v.VERIF, 'props', ID, 'coq', 'GenTables.v')
     if not os.path.exists(path) or open(path).read() != new:
@@ -999,8 +1014,9 @@ TRUSTED = ['modelled rather than verified: ResponderOps<T>::HandleRDMRequest/Han
            'configuration; the harness installs a FakeNetworkManager built from the same configuration, also in the DummyResponder), '
            'std::sort of the interfaces is modelled as an insertion sort (distinct indices in the generated configurations), theorems '
            'assume at most 38 interfaces and URL strings of at most 231 bytes',
-           'AdvDimmer.v: setting / frequency descriptions, lock states, preset count and the level / time windows are typed from '
-           'AdvancedDimmerResponder.cpp (private constants defined in the .cpp) and pinned by the resp advdimmer correspondence; slot-table theorems assume '
+           'AdvDimmer.v: setting / frequency descriptions, lock states, the personality and the level / time windows are cut from the '
+           'text of AdvancedDimmerResponder.cpp into GenTables.v on every run (c13_adv_consts); the initial member values of the '
+           'constructor are typed by hand and pinned by the resp advdimmer correspondence; slot-table theorems assume '
            'the table fits one response (<=46 slots for SLOT_INFO, <=77 for DEFAULT_SLOT_VALUE) and that the active personality exists']
 LEVEL_TEXT = ('PARTIAL by design. Coq theorems, for all requests and EVERY handler behaviour, about an executable model of '
               'ResponderOps dispatch (completion exactly once; broadcast/vendorcast: status only, no response; foreign UID: '
@@ -1012,7 +1028,7 @@ LEVEL_TEXT = ('PARTIAL by design. Coq theorems, for all requests and EVERY handl
               'For ALL eight responder classes the handler hypothesis is discharged, each handler modelled as the '
               'ResponderHelper call (or the few lines) it is: AckTimerResponder (c13_acktimer), SensorResponder (c13_sensor), '
               'DimmerSubDevice and DimmerRootDevice (c13_dimmer_sub, c13_dimmer_root; the composite DimmerResponder: '
-              'c13_dimmer_once + c13_fanout*), MovingLightResponder (c13_moving_light), NetworkResponder (c13_network, incl. the eight '
+              'c13_dimmer, NACK => unchanged outside exactly the known fan-out finding), MovingLightResponder (c13_moving_light), NetworkResponder (c13_network, incl. the eight '
               'E1.37-2 network helpers over an abstract NetworkManagerInterface), DummyResponder (c13_dummy; excludes exactly the '
               'known finding GET TEST_DATA 232..4096) and AdvancedDimmerResponder (c13_advanced_dimmer, plus lock-state theorems '
               'c13_advanced_dimmer_locked_silent / _write_protect). Handler tables are checked against tables regenerated from the '
